@@ -59,6 +59,20 @@ def control_slices(o, boundaries):
     return out
 
 
+def position_slices(o, key, positions, tag="@"):
+    """One worker per value of a lazily compared position variable (the union over all values
+    in range(positions) plus 'never' would be the unsliced space; 'never' is omitted when the
+    harness has nothing to check without the event)."""
+    out = []
+    for b in range(positions):
+        d = dict(o)
+        d["id"] = "%s%s%d" % (o["id"], tag, b)
+        d["fixed"] = dict(o.get("fixed") or {})
+        d["fixed"][key] = b
+        out.append(d)
+    return out
+
+
 def ob(prop, name, body, params, timeout=300, fixed=None, kind="e2c"):
     return {
         "id": "%s.%s" % (prop, name),
